@@ -1,0 +1,149 @@
+//go:build verif && linux && !poll_opt
+
+package core
+
+import (
+	"errors"
+	"sort"
+
+	"rcproxy/core/pkg/redis"
+)
+
+// Verification hooks for the topology refresh (add-only, tag verif).
+
+// VerifInfoFunc answers the INFO probe parse() makes for addresses it does not know yet.
+type VerifInfoFunc func(addr string) (loading bool, linkUp bool, err bool)
+
+type verifWrapper struct{ f VerifInfoFunc }
+type verifRedisConn struct {
+	f    VerifInfoFunc
+	addr string
+}
+
+func (w *verifWrapper) Dial(address, passwd string, options ...redis.DialOption) (redis.Conn, error) {
+	_, _, fail := w.f(address)
+	if fail {
+		return nil, errors.New("dial failed")
+	}
+	return &verifRedisConn{w.f, address}, nil
+}
+func (c *verifRedisConn) Info() (*redis.Info, error) {
+	loading, up, _ := c.f(c.addr)
+	st := "down"
+	if up {
+		st = "up"
+	}
+	return &redis.Info{Version: "7.0.0", Loading: loading, MasterLinkStatus: st}, nil
+}
+func (c *verifRedisConn) Do(cmd string, args ...interface{}) (interface{}, error) { return nil, nil }
+func (c *verifRedisConn) Send(cmd string, args ...interface{}) error             { return nil }
+func (c *verifRedisConn) Flush() error                                            { return nil }
+func (c *verifRedisConn) Receive() (interface{}, error)                           { return nil, nil }
+func (c *verifRedisConn) Close() error                                            { return nil }
+
+// VerifSetInfo installs the INFO oracle.
+func VerifSetInfo(f VerifInfoFunc) { EngineGlobal.ClusterNodes.redisWrapper = &verifWrapper{f} }
+
+// VerifStartClusterLoop starts the production refresh goroutine; the channel is closed when it returns.
+func VerifStartClusterLoop() <-chan struct{} {
+	done := make(chan struct{})
+	go func() {
+		EngineGlobal.ClusterNodes.loopClusterNodes()
+		close(done)
+	}()
+	return done
+}
+
+// VerifClusterSend offers a probe reply to the refresh loop the way eventloop.sread does.
+func VerifClusterSend(msg []byte) bool {
+	select {
+	case EngineGlobal.clusterChan <- msg:
+		return true
+	default:
+		return false
+	}
+}
+
+// VerifClusterChanLen is the number of replies waiting in the channel.
+func VerifClusterChanLen() int { return len(EngineGlobal.clusterChan) }
+
+// VerifNode is the observable part of a parsed node.
+type VerifNode struct {
+	Name, Addr, MasterId string
+	Slave                bool
+	Slots                [][2]int32
+}
+
+func verifNode(n *ClusterNode) VerifNode {
+	v := VerifNode{Name: n.Name, Addr: n.Addr, MasterId: n.MasterId, Slave: n.Role == Slave}
+	for _, s := range n.Slots {
+		v.Slots = append(v.Slots, [2]int32{s.Start, s.End})
+	}
+	return v
+}
+
+// VerifClusterParse runs ClusterNodes.parse on text with the given set of already known addresses.
+func VerifClusterParse(text string, known []string, f VerifInfoFunc) ([]VerifNode, bool) {
+	c := ClusterNodes{redisWrapper: &verifWrapper{f}}
+	for _, a := range known {
+		c.ServerMap.Insert(a, &ClusterNode{Addr: a})
+	}
+	nodes, err := c.parse(text)
+	if err != nil {
+		return nil, false
+	}
+	var out []VerifNode
+	for _, n := range nodes {
+		out = append(out, verifNode(n))
+	}
+	return out, true
+}
+
+// VerifClusterState is the refresh state: known servers, replica sets, the changed flag.
+type VerifClusterState struct {
+	Servers []VerifNode // sorted by address
+	Sets    [][]string  // master address followed by replica addresses, in Replicasets order
+	Changed bool
+}
+
+func VerifClusterDump() VerifClusterState {
+	c := &EngineGlobal.ClusterNodes
+	var st VerifClusterState
+	for kv := range c.ServerMap.Iter() {
+		st.Servers = append(st.Servers, verifNode(kv.Value.(*ClusterNode)))
+	}
+	sort.Slice(st.Servers, func(i, j int) bool { return st.Servers[i].Addr < st.Servers[j].Addr })
+	for _, rs := range c.Replicasets {
+		set := []string{rs.Master.Addr}
+		for _, s := range rs.Slaves {
+			set = append(set, s.Addr)
+		}
+		st.Sets = append(st.Sets, set)
+	}
+	st.Changed = c.serverChanged
+	return st
+}
+
+// VerifSlotOwner returns the master address and replica addresses serving slot, or ok=false.
+func VerifSlotOwner(slot int32) (master string, slaves []string, ok bool) {
+	rs := EngineGlobal.Slots2Node.Get(slot)
+	if rs == nil {
+		return "", nil, false
+	}
+	for _, s := range rs.Slaves {
+		slaves = append(slaves, s.Addr)
+	}
+	return rs.Master.Addr, slaves, true
+}
+
+// VerifPools lists the pools as "addr" -> isSlave, plus whether each is closed.
+func VerifPools() (addrs []string, slave []bool) {
+	for a := range EngineGlobal.ProxyPool {
+		addrs = append(addrs, a)
+	}
+	sort.Strings(addrs)
+	for _, a := range addrs {
+		slave = append(slave, EngineGlobal.ProxyPool[a].isSlave)
+	}
+	return
+}
